@@ -67,11 +67,17 @@ func init() {
 				}
 				// keep the path only if the assumption is satisfiable with the path condition
 				if len(ex.trail) >= len(ex.prefix) {
-					if r, _ := ex.check(c.t, nil); r.String() == "unsat" {
-						ex.abort(AbortInfeasible, "assumption contradicts path condition")
+					if v, ok := ex.evalModel(c.t); !ok || v != 1 {
+						r, m := ex.checkM(c.t)
+						if r.String() == "unsat" {
+							ex.abort(AbortInfeasible, "assumption contradicts path condition")
+						}
+						ex.pc = append(ex.pc, c.t)
+						ex.model = m
+						return nil
 					}
 				}
-				ex.pc = append(ex.pc, c.t)
+				ex.addPC(c.t)
 			}
 			return nil
 		},
